@@ -30,3 +30,8 @@ def contract(id, props, anchor, loops=None, summaries=None, cases=None, note='',
 
 def loop(relpath, qual, ordinal, header, invariants, modifies=(), decreases=None, name=None):
     return ((relpath, qual, ordinal), LoopSpec(header, invariants, modifies, decreases, name))
+
+
+def exit_check(relpath, qual, checks):
+    """ensures evaluated inside the callee at return, with its locals in scope (ghost access): [(label, expr)]"""
+    return (('exit', relpath, qual), list(checks))
